@@ -84,12 +84,12 @@ def extra_cfgs(tier):
             return {'a': a}, {'r': r, 'o': o}
         add('Constant w%d value %d' % (w, v), b, 'comb')
     # EqualConstant with out-of-range / negative constants
-    for w, v in ((3, 8), (3, 9), (3, -1), (1, 2), (1, 3), (4, 16)):
+    for w, v in ((3, 8), (3, 9), (3, -1), (1, 2), (1, 3), (4, 16), (32, -1), (32, (1 << 32) + 1), (32, (1 << 32) - 1), (40, 1 << 35), (33, 1 << 32)):
         def b(s, w=w, v=v):
             a, r = W(s, 'a', w), W(s, 'r', 1)
             EqualConstant(s, 'eq', a, v, r)
             return {'a': a}, {'r': r}
-        add('EqualConstant w%d constant %d (outside the operand range)' % (w, v), b, 'comb')
+        add('EqualConstant w%d constant %d (outside the operand range or wider than 32 bits)' % (w, v), b, 'comb')
     # hand-written bodies: memories, message sequencer
     for aw, dw in ((1, 2), (2, 4)):
         def b(s, aw=aw, dw=dw):
